@@ -342,7 +342,11 @@ func (r *runner[C]) watchdog() chan struct{} {
 			r.mu.Lock()
 			c, since := r.inflight, r.inflightT
 			r.mu.Unlock()
-			if c == nil || time.Since(since) < r.env.caseTimeout {
+			budget := r.env.caseTimeout
+			if c != nil && r.p.MustTerminate != nil && r.p.MustTerminate(*c) && budget > 150*time.Second {
+				budget = 150 * time.Second // calls that take milliseconds; the statement says they end
+			}
+			if c == nil || time.Since(since) < budget {
 				continue
 			}
 			path := filepath.Join(r.env.replays, fmt.Sprintf("%s-timeout-s%d.json", r.p.ID, r.env.shard))
@@ -353,10 +357,10 @@ func (r *runner[C]) watchdog() chan struct{} {
 			terminationStated := r.p.TerminationIsProperty || (r.p.MustTerminate != nil && r.p.MustTerminate(*c))
 			if terminationStated {
 				kind = "VERIF-FAIL"
-				r.rec.Fail(rec.Failure{Stage: r.stage, Msg: "case did not terminate within " + r.env.caseTimeout.String(), Replay: path})
+				r.rec.Fail(rec.Failure{Stage: r.stage, Msg: "case did not terminate within " + budget.String(), Replay: path})
 			}
 			fmt.Printf("%s property=%s stage=%s replay=%s msg=%s\n", kind, r.p.ID, r.stage, path,
-				strconv.Quote("case did not terminate within "+r.env.caseTimeout.String()))
+				strconv.Quote("case did not terminate within "+budget.String()))
 			r.rec.Dump(r.env.out)
 			if terminationStated {
 				os.Exit(1)
